@@ -11,6 +11,9 @@ filter input — and re-proves the end-to-end statements for `build`:
 * `count(P) op n`, `n op count(P)`                                     (six comparison operators)
 * `contains(S, 'lit')`, `starts-with(S, 'lit')`, `ends-with(S, 'lit')`  with
   `S ∈ { 'literal', local-name(), local-name(P), P }`
+* (after the repair of `containsFunc`/`startwithFunc`/`endwithFunc`: the second argument is read like
+  the first) `contains(P, Q)`, `contains('lit', Q)` … with a flat path `Q` in *second* position
+* (after the repair of `notFunc`: `not` of a number is `not(boolean(…))`) `not(count(P))`
 * `local-name() = 'lit'`, `local-name() != 'lit'`, `local-name(P) = 'lit'`, `local-name(P) != 'lit'`
 * `(P)[b]`  (and `(P)[b1][b2]…`, `(P)[b]/step…`)
 
@@ -28,7 +31,7 @@ of a path with a literal) range over all twelve axes as before.
 
 Helper files under `XPathV/Lemmas/PredSem2/`:
 
-* `Truth`    — `SeqOK`, `StrValOK`, `StrArgOK`, the truth lemmas `predOK_count*`, `predOK_strTest`,
+* `Truth`    — `SeqOK`, `StrValOK`, `StrArgOK`, the truth lemmas `predOK_count*`, `predOK_notCount`, `predOK_strTest`, `predOK_strTest2`,
                `predOK_strCmp`, `strValOK_localName*`, `pathOK_group`
 * `Frag`     — `predPlan2`, `Frag2`, `frag_sem2`, `pred_truth2`, `C02_naive2`,
                `C02_filter_keeps_true2`, `C02_gfilter_keeps_true2`
@@ -249,4 +252,8 @@ end XPathV.PredSem2
 /-! ## Axiom audit -/
 section AxiomAudit
 open XPathV.PredSem2
+#print axioms predOK_strTest2
+#print axioms predOK_notCount
+#print axioms frag_sem2
+#print axioms build_frag2
 end AxiomAudit
